@@ -7,11 +7,10 @@ MANIFEST = dict(
     technique="Coq proofs about the work of source-position conversion (resume-point form = rescanning form for every query list; linear total for one tokenizer run; quadratic lower bound of the rescanning form) + deterministic statement-execution counting of the real code (Go coverage counters) on growing input families for every entry point",
     text=("Work is measured in executed statements of the repository's own packages (Go coverage counters in count mode): deterministic, so growth is measured exactly rather than timed. "
           "For every entry point (tokenize, parse, serialise, both formatters, tree scan, text scan, extraction) and every input family (one long line, many lines, line/block comments, operator chains, wide lists, many statements, long literals and names, joins, CASE arms, UNION chains) "
-          "the check measures three sizes on a geometric ladder and requires the growth exponent of the increments to stay below 1.5 (linear 1.0, n log n about 1.1, quadratic 2.0
-          " Recovery work is proved linear (C20_recovery_work_linear: every token touched at most three times with the code's resume rule; the restart rule is refuted as quadratic). Families include malformed inputs (dangling chains, broken statements, keyword soup), long UNION chains and nested constructs as exponential families (work and allocation per added level)."), attributing a violation to the function whose statements grow fastest. "
+          "the check measures three sizes on a geometric ladder and requires the growth exponent of the increments to stay below 1.5 (linear 1.0, n log n about 1.1, quadratic 2.0), attributing a violation to the function whose statements grow fastest. "
           "Model/Cost.v models the position conversion every token goes through — the stage that made tokenizing quadratic on the pinned tree — in its rescanning and its resume-point form with their loop-body counts; proved: both forms return the same line/column for every query list in any order, "
           "one tokenizer run (increasing offsets) costs at most 1 + lines + 2*bytes loop iterations whatever the number of tokens, and the rescanning form costs exactly k + d*k*(k-1)/2 on k queries spaced d apart (quadratic); also restated from the other models: the token loop needs at most |bs|+1 iterations, the statement loops at most |tokens|+1, the extractors visit each node once. "
-          "The model is tied to the code on every run: real toSQLPosition answers for forward, backward and scrambled query lists are compared with the model's, and the measured loop-body executions inside toSQLPosition must respect the proved bound."),
+          "The model is tied to the code on every run: real toSQLPosition answers for forward, backward and scrambled query lists are compared with the model's, and the measured loop-body executions inside toSQLPosition must respect the proved bound." + ' Recovery work is proved linear (C20_recovery_work_linear: every token touched at most three times with the resume rule of the code; the restart rule is refuted as quadratic). Families include malformed inputs (dangling chains, broken statements, keyword soup), long UNION chains and nested constructs as exponential families (work and allocation per added level).'),
     note=common.BASE_NOTE + "Statement counts are the work measure (not CPU time); stages other than position conversion are covered by measurement on the family catalogue, not by a theorem; sizes explored are stated in the evidence.",
     design="6/C20")
 
